@@ -7,11 +7,11 @@ open BB.Callable BB.Oracle
 def tyOf : String → Option Ty
   | "int" => some .int | "str" => some .str | "any" => some .any | "err" => some .err | "pint" => some .pint
   | "sl" => some .sl | "map" => some .map | "fn" => some .fn | "ch" => some .ch | "named" => some .named
-  | "perr" => some .perr | _ => none
+  | "perr" => some .perr | "arr" => some .arr | _ => none
 
 def tyStr : Ty → String
   | .int => "int" | .str => "str" | .any => "any" | .err => "err" | .pint => "pint" | .sl => "sl" | .map => "map"
-  | .fn => "fn" | .ch => "ch" | .named => "named" | .perr => "perr"
+  | .fn => "fn" | .ch => "ch" | .named => "named" | .perr => "perr" | .arr => "arr"
 
 def listOf (s : String) : List String := if s == "-" then [] else s.splitOn ","
 
